@@ -6,7 +6,7 @@ REPO = os.environ.get("VERIF_REPO", "/repo")
 
 # normalised text (comments and all whitespace removed) of the two pieces of source the hand-written
 # Flocq model transcribes; a change makes the guard obligation fail (the check then widens its search)
-EXPECT_NEXT = "funcnextBackoffDelay(curtime.Duration,multiplierfloat64,ceiltime.Duration)time.Duration{next:=time.Duration(float64(cur)*multiplier)ifnext<=0||next>ceil{returnceil}returnnext}"
+EXPECT_NEXT = "funcnextBackoffDelay(curtime.Duration,multiplierfloat64,ceiltime.Duration)time.Duration{next:=time.Duration(float64(cur)*multiplier)ifnext<=0{returnceil}ifnext<cur{next=cur}ifnext>ceil{returnceil}returnnext}"
 EXPECT_LOOP = [
     "delay:=c.cfg.Load().reconnectBackoffInitial",
     "sleepFor:=delayifceil:=cfg.timers.T5;sleepFor>ceil{sleepFor=ceil}",
@@ -56,7 +56,7 @@ PROP = {
         "amd64 semantics of float64->int64 conversion for NaN/Inf/out-of-range values (CVTTSD2SQ returns -2^63); the Go spec leaves it implementation-defined, the differential checks it on this machine",
     ],
     "assumptions": [
-        "C11_backoff carries init <= 2^53 ns and T5 <= 2^53 ns (about 104 days); beyond that bound the statement is refuted (known finding C11-backoff-2p53)",
+        "C11_backoff holds for every positive int64 initial delay / T5 and every multiplier since /repo commit 67dfa20 (the function before that commit is kept as Backoff_next_delay_old with its 2^53 refutation)",
         "the sleep sequence theorem is for a configuration that does not change while the loop runs (the loop re-reads T5 and the multiplier every iteration)",
         "liveness ('eventually re-establishes') is observed by the e2e passes, not proved",
     ],
